@@ -11,6 +11,7 @@
   `decrypt` (`Props.C15`, model `Cli`), tied by the correspondence through the real binaries.
 -/
 import Proofs.GoTieLazy
+import Proofs.GoTieCliDecrypt
 namespace AgeModel
 namespace Tie.C15
 open Extracted
@@ -40,6 +41,35 @@ theorem lazy_write_failed {φ : Type} (isNil : φ → Bool) (name : Bytes) (f : 
 theorem lazy_close {φ : Type} (isNil : φ → Bool) (FC : φ → Go.M (Option Go.Err)) (name : Bytes) (f : φ) (err : Option Go.Err) :
     main_lazyOpener_Close isNil FC ⟨name, f, err⟩ = if isNil f = true then .ok none else FC f :=
   GoTie.lazy_close isNil FC name f err
+
+/-! `decrypt` of cmd/age/age.go, translated on every run (`errorf` / `errorWithHint`, which end the
+process with status 1, are exit sites — faults 1000 … 1003): the order of effects of `age -d`, and
+in particular: a refused decryption exits WITHOUT ANY WRITE to the output. -/
+
+theorem cli_decrypt_tie {δ ι : Type} (NR : Bytes → Go.M Bytes) (D : Bytes → List ι → Go.M (Bytes × Option Go.Err))
+    (W : δ → Bytes → Go.M (Int × Option Go.Err × δ)) (Cp : δ → Bytes → Go.M (Int × Option Go.Err × δ))
+    (ids : List ι) (inp : Bytes) (out : δ) :
+    main_decrypt NR D W Cp ids inp out =
+      if GoTie.mangled inp = true then .error (.panic 1000)
+      else (do
+        let in' ← (if GoTie.armored inp = true then NR inp else pure inp)
+        let t ← D in' ids
+        if (t.2 != none) = true then .error (.panic 1001)
+        else do
+          let w ← W out []
+          if (w.2.1 != none) = true then .error (.panic 1002)
+          else do
+            let c ← Cp w.2.2 t.1
+            if (c.2.1 != none) = true then .error (.panic 1003) else pure c.2.2) :=
+  GoTie.cli_decrypt_tie NR D W Cp ids inp out
+
+theorem cli_decrypt_refused {δ ι : Type} (NR : Bytes → Go.M Bytes) (D : Bytes → List ι → Go.M (Bytes × Option Go.Err))
+    (ids : List ι) (inp : Bytes) (out : δ) (in' : Bytes)
+    (hin : (if GoTie.armored inp = true then NR inp else pure inp) = .ok in')
+    (r : Bytes) (e : Go.Err) (hD : D in' ids = .ok (r, some e)) :
+    main_decrypt NR D (fun _ _ => .error (.panic 77)) (fun _ _ => .error (.panic 78)) ids inp out =
+      .error (.panic (if GoTie.mangled inp = true then 1000 else 1001)) :=
+  GoTie.cli_decrypt_refused NR D ids inp out in' hin r e hD
 
 end Tie.C15
 end AgeModel
